@@ -16,6 +16,22 @@ PROGRAMS = {
 }
 
 
+def corpus_programs(rnd, n):
+    """programs made of lines of the TLC-enumerated corpora (C20: "all programs from the other corpora"); not executed"""
+    lines = []
+    for cname in ("C01", "C02d", "C02h", "C03", "C04a", "C04c", "C05", "C11s"):
+        recs = [json.loads(l) for l in open(A.corpus(cname))]
+        recs = [r for r in recs if r.get("status") == "Supported"]
+        for r in A.sample(recs, 60, A.SEED + 20):
+            lines.append(A.render(r["ast"]))
+    out = {}
+    for k in range(n):
+        body = [rnd.choice(lines) for _ in range(rnd.randint(2, 9))]
+        eol = rnd.choice(["\n", "\n", "\r\n"])
+        out["corp%d" % k] = (eol.join(body) + rnd.choice(["", eol]), False)
+    return out
+
+
 def flag_vectors():
     key = A.spec_hash("AsmCli", "AsmMech")
     path = os.path.join(A.BUILD, "corpus", "CLIFLAGS-%s.ndjson" % key)
@@ -104,6 +120,8 @@ def run(prop, tier, replay=None):
     exe = os.path.join(A.OBJ, "plain", "asmline")
     rnd = random.Random(A.SEED * 77 + 20)
     vectors = flag_vectors()
+    if not replay:
+        PROGRAMS.update(corpus_programs(random.Random(A.SEED * 5 + 20), 24 if tier == "quick" else 240))
     d = os.path.join(A.BUILD, "cli-%d" % os.getpid())
     os.makedirs(d, exist_ok=True)
     try:
@@ -115,6 +133,8 @@ def run(prop, tier, replay=None):
         # cases
         if replay:
             rp = json.load(open(replay))
+            if "text" in rp:
+                PROGRAMS[rp["prog"]] = (rp["text"], False)
             cases = [(rp["f"], rp["opt"], rp["prog"])]
         else:
             cases = []
@@ -252,7 +272,7 @@ def run(prop, tier, replay=None):
         seen[reason] += 1
         if seen[reason] > 3:
             continue
-        path = A.write_replay(prop, "%s-%s" % (e["id"], reason), {"property": prop, "reason": reason, "f": e["f"], "opt": e["opt"], "prog": e["prog"], "observed": e})
+        path = A.write_replay(prop, "%s-%s" % (e["id"], reason), {"property": prop, "reason": reason, "f": e["f"], "opt": e["opt"], "prog": e["prog"], "text": PROGRAMS[e["prog"]][0], "observed": e})
         print("VIOLATION property=%s replay=%s  (%s: asmline %s  program %s from %s)" % (prop, path, reason, " ".join(e["argv"]), e["prog"], e["f"]["src"]))
     for r, n in seen.items():
         if n > 3:
